@@ -1,6 +1,6 @@
 (* C08 - Service tasks are stopped at teardown before anything they may depend on. *)
 From Coq Require Import List Bool Arith.
-From Asphalt Require Import Conc.Service Conc.ServiceProofs Conc.ServiceFuel Td.Lifecycle Gen.Gen_lifecycle Gen.Gen_service.
+From Asphalt Require Import Conc.Service Conc.ServiceProofs Conc.ServiceStop Conc.ServiceFuel Td.Lifecycle Gen.Gen_lifecycle Gen.Gen_service.
 Import ListNotations.
 
 (* For every set of service tasks (any teardown action and behaviour), every program of
@@ -12,6 +12,23 @@ Theorem C08_before : forall SV prog, NoDup (items prog) -> forall gs s tr l1 c l
   regs s = l1 ++ ICb c :: l2 ++ ISvc sid :: l3 -> before (EFin sid) (ECb c) (proj tr).
 Proof. exact finished_before_earlier_callbacks. Qed.
 Print Assumptions C08_before.
+
+(* ... and the finalizer of an EARLIER service task is such a callback too: for every program and EVERY schedule,
+   a service task is told to stop -- cancelled by its finalizer, or its teardown callable invoked -- only after
+   every service task started after it, and that task's own context, has completely finished (batching the
+   cancellations of a context's tasks breaks exactly this) *)
+Theorem C08_stop_order : forall SV prog, NoDup (items prog) -> forall gs s tr l1 early l2 later l3,
+  run_gates SV prog (init SV prog) [] gs = (s, tr) ->
+  regs s = l1 ++ ISvc early :: l2 ++ ISvc later :: l3 ->
+  forall n x, nth_error tr n = Some x -> is_stop early x = true -> In (Finished later) (firstn n tr).
+Proof. exact stopped_only_after_later_tasks_finished. Qed.
+Print Assumptions C08_stop_order.
+
+(* nobody is told to stop while the owning block is still running *)
+Theorem C08_no_stop_inside_the_block : forall SV prog, NoDup (items prog) -> forall gs s tr rest,
+  run_gates SV prog (init SV prog) [] gs = (s, tr) -> own s = InBlock rest -> quiet tr.
+Proof. exact nobody_stopped_inside_the_block. Qed.
+Print Assumptions C08_no_stop_inside_the_block.
 
 (* no service task is still running once the owning `async with` block has been left *)
 Theorem C08_none_left : forall SV prog, NoDup (items prog) -> forall gs s tr sid,
